@@ -1130,3 +1130,56 @@ CHECKS["C19"].update({
              "(exponential number of collections with key merging across levels; verdicts correct; fix proposed). Repaired: Q1, Q1sf, Q1-vars, Q1-vars2, Q2, Q3, H2."),
     "technique": "Lean 4 proof (rule = spec depth on the live variant, wrapping invariance, path exactness) + exhaustive small-scope correspondence and cost oracle",
 })
+
+
+# ---------------------------------------------------------------------------------------------------------------
+# C14 — state after the heap builder waves (replaces the layered texts above; obligation names are appended by manifest_gen.py).
+# ---------------------------------------------------------------------------------------------------------------
+CHECKS["C14"].update({
+    "text": ("Object-heap model (lean/PyGqlModel/Heap.lean, HeapExt.lean, Registry.lean: objects with identities, attribute writes, copy.copy as a new identity; "
+             "Schema.clone, _replace_types_and_directives incl. busted_cache, _HealSchemaVisitor / fix_type_references, SchemaVisitor.on_*, "
+             "VisibilitySchemaTransform, CamelCaseSchemaTransform, a drop/wrap schema-directive visitor, transform_schema, extend_schema with the attribute "
+             "copying of ASTTypeBuilder._extend_*, the resolver registries as heap objects) whose code-variant flags (Cfg) are RE-EXTRACTED from schema.py / "
+             "ast_type_builder.py / schema_from_ast.py on every run. Headline theorems, all FULL for the variant in /repo (each with a machine-checked "
+             "refutation for the variant before the repair): CLOSED - heal_closed, clone_closed, transform_closed (+ _total), extend_closed / extend_closed_wf "
+             "(every document that only uses defined names: ExtOK; refuted for the un-extended input-field variant, C11-S1); FRAME - clone_frames_source "
+             "(clone and every clone-based transform write no object of a closed source), transform_owns_result + inplace_on_result_frames_source (in-place "
+             "visitors on a result never reach back), extend_frames_source, clone_frames_source_registries / clone_keeps_source_digest; SEQUENCES - "
+             "transform_sequence_frames_source, transform_sequence_untouched_preserved, run_ops_untouched_preserved (transforms and extensions mixed), "
+             "transform_chain_untouched_preserved (each transform applied to the previous result, TRel.comp), history_closed_framed (ANY tree of clone / "
+             "transform / extend derivations on one heap keeps every schema closed, well-formed and unwritten), with totality (runAll_total, runOps_total, "
+             "chain_total); PRESERVED - transform_preserves_untouched (type level, every visitor), transform_preserves_untouched_members (fields, arguments, "
+             "input fields: in order, copies of a sub-list of the source's with every untouched attribute), untouched_preserved_extend "
+             "(+ _protected, _directives, _schema_level), extend_keeps_leaf_class, clone_intact / transform_intact, visibility_hides_type(_transform); "
+             "IN-PLACE - history_inplace_closed_framed / inplace_step_separate (per-schema ownership: an in-place visitor on ANY derived schema, also "
+             "one created before others, writes only that schema's objects: every other schema stays closed, well-formed, unwritten), "
+             "camel_case_exact (per schema, exact: the by-name view of every type with the member names converted, none dropped), "
+             "transform_preserves_members_any_visitor (no NoWrap: under drop/wrap directive visitors only a field's resolver may change, to a "
+             "wrapper's id), extendO_closed_wf / extendO_frames_source (extend_schema with the document's implements clauses and the code's "
+             "dict order, extendOrder); "
+             "HIDDEN - visibility_hides_members / visibility_hides_directives / directive_drops_fields (hidden fields, input fields, directives and "
+             "fields dropped by a schema directive are in no list of the result, healing included), visibility_members_exact (without hidden types "
+             "every member list is the source's filtered by the predicate: the lower bound of the Sub2 theorems; VisibleMembersKept is the named open "
+             "lower bound when types are hidden too); config_fixed (currentCfg = Cfg.fixed := rfl: no current_* theorem takes a flag hypothesis); "
+             "REFINEMENT - clone_is_copy_then_exact_heal, clone_refines (the by-name dump of every type of a clone equals the source's for every "
+             "interpretation of resolver ids / defaults), clone_refines_directives, clone_types_perm / clone_types_order (dict order of the clone = order of "
+             "Schema.__init__'s type map; 'same order as the source' refuted, not part of the property), clone_registries_total. The ten `_partial` "
+             "theorems are subsumed by these and kept for name stability. Tied by correspondence of the live object graph (identities canonicalised by "
+             "traversal order, registries and dict orders included) over random clone / transform / extend / in-place / register sequences applied to the "
+             "source or to earlier results, by-name dump(clone(s)) == dump(s), and direct oracles on the real code: closedness by identity, frame condition "
+             "on the source, preserved attributes, hidden elements unreachable through real introspection and queries, resolvers still executed under the "
+             "new names, source still usable; named deterministic probes (python names through camel-case, input fields of a clone, in-place visitor on an earlier result while later "
+             "schemas exist, visibility allow-lists, stale caches); oracle cases of the bug-hunt rounds (class tags of leaf "
+             "types through extension, type resolvers returning objects of the source schema, schema directives applied by extensions only to what the "
+             "extension wrote, inline directive definitions registered, defaults re-evaluated after extensions)."),
+    "note": ("Trusted: Lean kernel; Cfg flag extraction (ast / regex); generators; snakecase_to_camelcase enters as a table computed by the real function "
+             "(theorems hold for every renaming). Only exercised by the oracle, not modelled: validate(), Schema.implementations / _possible_types (derived "
+             "indexes), merge_resolvers' assignment onto fields, default values (opaque strings in the model), enum value objects, interfaces added to an "
+             "EXISTING type by `extend type X implements I`; OPEN (named in Lean as `def VisibleMembersKept`, not proved): when a visibility transform hides "
+             "TYPES as well, that every field not mentioning a hidden type survives the healing rounds (the upper bounds Sub2 / visibility_hides_* and "
+             "the type-level lower bound visibility_keeps_visible_types are proved; the harness's oracle checks the member-level lower bound on the "
+             "real code). history_inplace_closed_framed steps with extendO (= extend + interfaces of new types + dict order); the "
+             "histories of the first wave (history_closed_framed, run_ops_*) step with extend. Known findings T13, T14, "
+             "T15-residue, T19 (see known_findings.json). Repaired on the way: S2, T1-T12, T15-T18, U1."),
+    "technique": "Lean 4 proof over an object-heap model (closedness, frame, ownership, preservation, refinement; induction over derivation histories) + live object-graph correspondence and identity oracles",
+})
